@@ -526,9 +526,22 @@ type c08Case struct {
 	ParkPre  bool `json:"park_commit_pre,omitempty"`
 	ParkPost bool `json:"park_commit_post,omitempty"`
 	ParkGet  bool `json:"park_get,omitempty"`
+	// shape "foldercollapse" (directed, all stacks): a transaction lists Prefix, deletes Key, the only key
+	// under one sub-folder of Prefix, lists Prefix again (the folder is gone from its view), a plain client
+	// then creates Sibling in that sub-folder, the transaction commits. At commit time the second listing
+	// would show the folder again, so the commit has to fail.
+	Fold *c08Fold `json:"fold,omitempty"`
 	// CacheSize (cache stacks): 0 = default; 128 gives every transaction a private LRU of 128/64 = 2 entries,
 	// fewer than the keys a transaction touches.
 	CacheSize int `json:"cache_size,omitempty"`
+}
+
+type c08Fold struct {
+	Prefix    string `json:"prefix"`
+	Key       string `json:"key"`
+	Sibling   string `json:"sibling"`
+	FirstList bool   `json:"first_list"` // the transaction also lists Prefix before its delete
+	Paged     bool   `json:"paged"`
 }
 
 func c08GenOp(rng *kit.Rand, vals *int, client int, write, page bool) c08Action {
@@ -662,6 +675,49 @@ func c08GenCase(rng *kit.Rand, st *c08Stack, id, mode string) *c08Case {
 		}
 		cs.Scripts = append(cs.Scripts, sc)
 		client++
+	}
+	// Which cases get the directed shape depends on the case id only and its parameters come from their own
+	// stream, so that adding it did not change any other case (witnesses keep replaying).
+	fh := fnv.New64a()
+	fh.Write([]byte("fold|" + id))
+	if mode == "sched" && cs.Shape == "random" && fh.Sum64()%10 == 0 {
+		rng := kit.NewRand(int64(fh.Sum64()>>1), 8)
+		cs.Shape = "foldercollapse"
+		f := &c08Fold{Prefix: "", FirstList: rng.Chance(3, 4), Paged: rng.Chance(1, 3)}
+		folder := kit.Pick(rng, []string{"a/", "b/"})
+		var in []string
+		for _, k := range c08Keys {
+			if strings.HasPrefix(k, folder) {
+				in = append(in, k)
+			}
+		}
+		f.Key = kit.Pick(rng, in)
+		for f.Sibling == "" || f.Sibling == f.Key {
+			f.Sibling = kit.Pick(rng, in)
+		}
+		for _, k := range in {
+			delete(cs.Init, k)
+		}
+		cs.Init[f.Key] = "i:" + f.Key
+		cs.Fold = f
+		list := c08Action{Kind: "list", Key: f.Prefix}
+		if f.Paged {
+			list = c08Action{Kind: "page", Key: f.Prefix, After: "", Limit: -1}
+		}
+		pre := []c08Action{{Kind: "begin"}}
+		if f.FirstList {
+			pre = append(pre, list)
+		}
+		pre = append(pre, c08Action{Kind: "del", Key: f.Key}, list, c08Action{Kind: "commit"})
+		for i := range cs.Scripts {
+			sc := &cs.Scripts[i]
+			if sc.Txn && sc.Client == 0 {
+				sc.Acts = append(pre, sc.Acts...)
+			}
+			if !sc.Txn && sc.Client == nTxn {
+				sc.Acts = append([]c08Action{{Kind: "put", Key: f.Sibling, Val: "fold:" + f.Sibling}}, sc.Acts...)
+			}
+		}
 	}
 	return cs
 }
@@ -1138,6 +1194,29 @@ func c08Execute(cs *c08Case, be c08Backend, st *c08Stack, rng *kit.Rand, free bo
 
 	var last *c08Client
 	ok := true
+	if cs.Shape == "foldercollapse" {
+		// directed prefix: the transaction's begin, list(s) and delete; the plain put of the sibling; the commit
+		t0, p0 := clients[0], clients[len(clients)-1]
+		for _, c := range clients {
+			if !c.sc.Txn {
+				p0 = c
+				break
+			}
+		}
+		n := 3
+		if cs.Fold.FirstList {
+			n = 4
+		}
+		for ; n > 0 && ok; n-- {
+			ok = issue(t0)
+		}
+		if ok {
+			ok = issue(p0)
+		}
+		if ok {
+			ok = issue(t0)
+		}
+	}
 	if gate != nil && cs.Shape == "burst" {
 		// shape "burst": park one write of every plain client, then let every transaction begin and
 		// read, then apply everything, then go on at random. (Still drawn from the case's PRNG.)
@@ -1401,7 +1480,7 @@ func c08Analyse(t testing.TB, r *kit.Result, st *c08Stack, run *c08Run, free boo
 	}
 	if os.Getenv("VERIF_C08_DUMP") != "" {
 		defer func() {
-			t.Logf("case %s shape=%s schedule=%v", id, cs.Shape, run.Trace)
+			t.Logf("case %s shape=%s init=%v schedule=%v", id, cs.Shape, cs.Init, run.Trace)
 			for _, rc := range run.Recs {
 				t.Logf("   %s", rc)
 			}
@@ -1523,6 +1602,16 @@ func c08Analyse(t testing.TB, r *kit.Result, st *c08Stack, run *c08Run, free boo
 		}
 	}
 	sort.Ints(ords)
+
+	if cs.Shape == "foldercollapse" && len(ords) > 0 {
+		// the directed transaction is the first one begun
+		kind := "with_first_list"
+		if !cs.Fold.FirstList {
+			kind = "without_first_list"
+		}
+		r.Count("folder_collapse_cases_"+kind, 1)
+		r.Count("folder_collapse_"+kind+"_"+txns[ords[0]].Outcome, 1)
+	}
 
 	// ---- evidence: plain readers released inside the Commit of a transaction that wrote the key they read
 	for _, o := range ords {
@@ -2167,6 +2256,7 @@ func c08Require(r *kit.Result, sched, free int) {
 		r.Require("misuse_after_end_ops", n/10)
 		r.Require("misuse_ro_writes", n/40)
 		r.Require("plain_reads", n/2)
+		r.Require("folder_collapse_cases_with_first_list", n/40)
 	}
 	if free > 0 {
 		r.Require("cases_free", int64(free/shards))
